@@ -284,6 +284,11 @@ func DownloadHandler(w io.Writer, fullPath string, fileTransfer *FileTransfer, f
 		return fmt.Errorf("send data fork: %v", err)
 	}
 
+	// A "quick preview" request gets the bare data fork only.
+	if fileTransfer.Options != nil {
+		return nil
+	}
+
 	// If the client requested to resume transfer, do not send the resource fork header.
 	if fileTransfer.FileResumeData == nil {
 		err = binary.Write(w, binary.BigEndian, fw.rsrcForkHeader())
